@@ -9,9 +9,12 @@
 use crate::{Dialect, Document, FstDictionary};
 
 fn rac_check(group: &mut LintGroup, text: &str) -> Result<usize, String> {
-    let doc = Document::new_plain_english_curated(text);
+    rac_check_doc(group, text, &Document::new_plain_english_curated(text))
+}
+
+fn rac_check_doc(group: &mut LintGroup, text: &str, doc: &Document) -> Result<usize, String> {
     let src: Vec<char> = text.chars().collect();
-    let lints = group.lint(&doc);
+    let lints = group.lint(doc);
     for l in &lints {
         if l.span.start > l.span.end || l.span.end > src.len() {
             return Err(format!("lint [{}, {}) '{}' lies outside the text of {} chars", l.span.start, l.span.end, l.message, src.len()));
@@ -95,6 +98,17 @@ fn rac_rule_spans() {
     let mut group = LintGroup::new_curated(FstDictionary::curated(), Dialect::American);
     let mut cases = 0u64;
     let mut nontrivial = 0u64;
+    // the same sentences through the Markdown front-end, followed by a paragraph break and another paragraph
+    let md_texts: Vec<String> = texts.iter().step_by(3).map(|t| format!("Short one. {}\n\nNext paragraph here.", t)).chain([format!("Short one. {}\n\nNext paragraph here.", long_sentence), format!("Hi. {}\n", vec!["a"; 41].join(" ")), format!("- Item. {}\n- next\n", vec!["word"; 42].join(" ")), format!("# T. {}\n\nBody.\n", vec!["go"; 41].join(" "))]).collect();
+    for t in &md_texts {
+        let r = std::panic::catch_unwind(std::panic::AssertUnwindSafe(|| rac_check_doc(&mut group, t, &Document::new_markdown_default_curated(t))));
+        cases += 1;
+        match r {
+            Ok(Ok(n)) => { if n > 0 { nontrivial += 1; } }
+            Ok(Err(why)) => { println!("RAC-CEX rule_spans {{\"front_end\": \"markdown\", \"text\": {:?}, \"why\": {:?}}}", t, why); panic!("rule span contract violated"); }
+            Err(_) => { println!("RAC-CEX rule_spans {{\"front_end\": \"markdown\", \"text\": {:?}, \"why\": \"linting panicked\"}}", t); panic!("linting panicked"); }
+        }
+    }
     for t in &texts {
         let r = std::panic::catch_unwind(std::panic::AssertUnwindSafe(|| rac_check(&mut group, t)));
         cases += 1;
